@@ -87,5 +87,19 @@ func init() {
 	register("C02", "", ruleHelperRegistration)
 	register("C02", "", ruleStitchVariable)
 	register("C12", "", ruleStitchVariable)
+	register("C12", "", ruleForwardedVariables, ruleSingleLoopNesting)
+	register("C06", "", ruleSingleLoopNesting)
+	register("C02", "", ruleForwardedVariables)
+	for _, c := range []string{"C13", "C14", "C01", "C16", "C10", "C08"} {
+		register(c, "", ruleGatewayState)
+	}
+	register("C13", "", rulePlanImmutable, ruleASTWrites)
+	register("C16", "", ruleSliceReuse("pebbles.(*Gateway).Handler"), ruleRootDefinitionIdentity)
+	register("C14", "", ruleSliceReuse("pebbles.(*Gateway).Handler"))
+	register("C17", "", ruleDecodeTargetScope, ruleReturnedDataScrubbed)
+	register("C18", "", ruleDecodeTargetScope)
+	register("C01", "", ruleReturnedDataScrubbed)
+	register("C15", "", ruleBuiltinLists)
+	register("C05", "", ruleRootDefinitionIdentity)
 	register("X6", "debug: R6 over whole module", ruleErr(errScope{label: "all", pkgs: []string{"pebbles", "common", "executor", "format", "gqlerrors", "introspection", "merger", "planner", "queryer", "requests"}}))
 }
